@@ -13,5 +13,6 @@ CHECKS = {
     "C13": dict(engine="e2_nopanic", bins=["e2_nopanic"], level="exploration", ns=True, prebuild=["prebuild-ebpf"], tools=["unshare", "ip", "clang"]),
     "C10": dict(engine="e3_keysched", bins=["e3_keysched"], level="model_checking", ns=True, prebuild=["prebuild-ebpf"], tools=["unshare", "ip", "clang"]),
     "C16": dict(engine="e3_provision", bins=["e3_provision"], level="model_checking", ns=True, tools=["unshare", "ip"]),
+    "C09": dict(engine="e5_keykeeper", bins=["e5_keykeeper"], level="model_checking", ns=True, prebuild=["prebuild-ebpf"], tools=["unshare", "ip", "clang"]),
     "C02": dict(engine="e1_rbac", bins=["e1_rbac"], level="exploration"),
 }
